@@ -56,13 +56,26 @@ var c14Tables = []c14Table{
 	{DB: "db2", M: "secrets", Rows: 10061, SentStr: "ZQSENTdb2secrets", SentNum: 7230000000, SentCol: "zqcol_db2_secrets", FileName: "s.parquet"},
 	{DB: "db3", M: "ledger", Rows: 10079, SentStr: "ZQSENTdb3ledger", SentNum: 7330000000, SentCol: "zqcol_db3_ledger", FileName: "l.parquet"},
 	{DB: "default", M: "cpu", Rows: 10091, SentStr: "ZQSENTdefaultcpu", SentNum: 7440000000, SentCol: "zqcol_default_cpu", FileName: "d.parquet"},
+	{DB: "db2", M: "cpu", Rows: 10111, SentStr: "ZQSENTdb2cpu", SentNum: 7260000000, SentCol: "zqcol_db2_cpu", FileName: "k.parquet"},
 	{DB: "db-4", M: "net-io", Rows: 10103, SentStr: "ZQSENTdb4netio", SentNum: 7550000000, SentCol: "zqcol_db4_netio", FileName: "n.parquet"},
 }
 
 const c14Partition = "2024/01/01/00"
 
-func c14Allowed(db, m string) bool {
-	return db == "db1" && m != "vault"
+// Principals: token 7 (default) is granted db1.* except db1.vault; token 8 is
+// granted db2.* only. Everything else is denied.
+const (
+	c14TokenDB1 = 7
+	c14TokenDB2 = 8
+)
+
+func c14Allowed(token int64, db, m string) bool {
+	switch token {
+	case c14TokenDB2:
+		return db == "db2"
+	default:
+		return db == "db1" && m != "vault"
+	}
 }
 
 // ---------------------------------------------------------------- recorder
@@ -80,7 +93,11 @@ type c14Recorder struct {
 func (r *c14Recorder) IsRBACEnabled() bool { return true }
 
 func (r *c14Recorder) CheckPermission(req *auth.PermissionCheckRequest) *auth.PermissionCheckResult {
-	ok := req.Permission == "read" && c14Allowed(req.Database, req.Measurement)
+	var token int64 = c14TokenDB1
+	if req.TokenInfo != nil {
+		token = req.TokenInfo.ID
+	}
+	ok := req.Permission == "read" && c14Allowed(token, req.Database, req.Measurement)
 	r.mu.Lock()
 	r.checks = append(r.checks, c14Check{req.Database, req.Measurement, req.Permission, ok})
 	r.mu.Unlock()
@@ -260,7 +277,11 @@ func c14NewEnv(t testing.TB) *c14Env {
 	h.SetAuthAndRBAC(nil, rec)
 	app := fiber.New(fiber.Config{DisableStartupMessage: true})
 	app.Use(func(c *fiber.Ctx) error {
-		c.Locals("token_info", &auth.TokenInfo{ID: 7, Name: "verif-db1-only", Enabled: true})
+		if c.Get("x-verif-token") == "8" {
+			c.Locals("token_info", &auth.TokenInfo{ID: c14TokenDB2, Name: "verif-db2-only", Enabled: true})
+		} else {
+			c.Locals("token_info", &auth.TokenInfo{ID: c14TokenDB1, Name: "verif-db1-only", Enabled: true})
+		}
 		return c.Next()
 	})
 	h.RegisterRoutes(app)
@@ -297,7 +318,8 @@ func c14WriteTable(ref *sql.DB, tb c14Table, file string) error {
 // ---------------------------------------------------------------- requests
 
 type c14Req struct {
-	Endpoint string            `json:"endpoint"` // json | msgpack | arrow | estimate | measurements | measurement
+	Token    int               `json:"token,omitempty"` // 0/7 = db1-only principal, 8 = db2-only principal
+	Endpoint string            `json:"endpoint"`        // json | msgpack | arrow | estimate | measurements | measurement
 	SQL      string            `json:"sql,omitempty"`
 	Header   string            `json:"x_arc_database,omitempty"`
 	Params   map[string]string `json:"params,omitempty"` // GET endpoints
@@ -355,6 +377,9 @@ func (e *c14Env) do(r c14Req) c14Result {
 		}
 		if r.Header != "" {
 			req.Header.Set("x-arc-database", r.Header)
+		}
+		if r.Token == c14TokenDB2 {
+			req.Header.Set("x-verif-token", "8")
 		}
 		resp, err := e.app.Test(req, -1)
 		if err != nil {
@@ -446,10 +471,10 @@ func c14Flatten(endpoint string, status int, body []byte) (string, bool) {
 
 // ---------------------------------------------------------------- oracle
 
-var c14SentinelRe = func() *regexp.Regexp {
+func c14BuildSentinelRe(token int64) *regexp.Regexp {
 	var alts []string
 	for _, tb := range c14Tables {
-		if tb.Allowed {
+		if tb.Allowed || c14Allowed(token, tb.DB, tb.M) {
 			continue
 		}
 		alts = append(alts, regexp.QuoteMeta(tb.SentStr), regexp.QuoteMeta(tb.SentCol),
@@ -458,7 +483,13 @@ var c14SentinelRe = func() *regexp.Regexp {
 			fmt.Sprintf(`\b%d\b`, tb.Rows))
 	}
 	return regexp.MustCompile(strings.Join(alts, "|"))
-}()
+}
+
+// sentinels each principal must never see
+var c14SentinelRe = map[int64]*regexp.Regexp{
+	c14TokenDB1: c14BuildSentinelRe(c14TokenDB1),
+	c14TokenDB2: c14BuildSentinelRe(c14TokenDB2),
+}
 
 // c14Leak returns the first sentinel (value, column name or canary row count)
 // found in the flattened body, ignoring occurrences that merely echo the
@@ -473,7 +504,11 @@ func c14Leak(res c14Result, r c14Req) string {
 			}
 		}
 	}
-	return c14SentinelRe.FindString(flat)
+	token := int64(c14TokenDB1)
+	if r.Token == c14TokenDB2 {
+		token = c14TokenDB2
+	}
+	return c14SentinelRe[token].FindString(flat)
 }
 
 // c14Unauthorized lists the touched paths that do not belong to a
